@@ -249,6 +249,11 @@ def jobs(tier):
             continue  # same programs as the non-raising jobs; the census is static
         out.append(Job(name=j.name, space=j.space, harness=harness_for(j.harness.factory), bounds=j.bounds, budget_s=j.budget_s,
                        required=j.required, cubes_fn=j.cubes_fn, path_timeout_s=j.path_timeout_s))
+    if tier == "quick":
+        fac = lambda ch: s2.CtlGen(ch, 3, 2, 1, kinds=["if", "ifelse", "while"])
+        out.append(Job(name="S2-ctl-c3-core-kinds", space=lambda: (None, [], None), harness=harness_for(fac),
+                       bounds={"space": "S2-ctl", "compounds<=": 3, "kinds": ["if", "ifelse", "while"], "depth<=": 2, "terminators<=": 1},
+                       budget_s=900, cubes_fn=lambda: s2.enum_prefixes(lambda ch: fac(ch).program(), 3)))
     gj = s1_jobs(tier, graph_harness)
     if tier == "quick":
         gj = gj[:2]  # N = 3, 4 all labellings
